@@ -63,6 +63,31 @@ def make_basis(spec, d):
     if kind == 'custom':
         return ff.Basis(np.asarray(spec[1]), traceless=spec[2] if len(spec) > 2 else None,
                         btype=spec[3] if len(spec) > 3 else None)
+    if kind == 'derived':
+        # a basis obtained from another Basis *object* through numpy machinery, after the parent
+        # has computed (and cached) its own derived quantities: spec = ('derived', parent spec,
+        # how, seed).  The derived basis is a different basis of the same shape.
+        parent = make_basis(spec[1], d)
+        parent.four_element_traces
+        parent.isherm, parent.isorthonorm, parent.istraceless, parent.iscomplete
+        r = np.random.default_rng(spec[3])
+        n = len(parent)
+        how = spec[2]
+        if how == 'permute':
+            perm = np.concatenate(([0], 1 + r.permutation(n - 1)))
+            return parent[perm]
+        if how == 'conj':
+            return parent.conj()
+        if how == 'transpose':
+            return parent.transpose(0, 2, 1)
+        if how == 'ctor':
+            perm = np.concatenate(([0], 1 + r.permutation(n - 1)))
+            return ff.Basis(parent[perm], btype=parent.btype)
+        if how == 'scale_normalize':
+            b = (parent*2.0)[np.concatenate(([0], 1 + r.permutation(n - 1)))]
+            b.normalize()
+            return b
+        raise ValueError(how)
     raise ValueError(kind)
 
 
